@@ -473,7 +473,7 @@ func runCase(rt *rapid.T) {
 		err        error
 		gid        int
 	}
-	steps, sameTextWindow, faultsDrawn, holds := 0, false, 0, 0
+	steps, sameTextWindow, faultsDrawn := 0, false, 0
 	lastProgress := atomic.LoadInt64(&ctl.progress)
 	lastChange := time.Now()
 	for {
@@ -517,41 +517,35 @@ func runCase(rt *rapid.T) {
 			}
 		}
 		sort.Slice(ctl.parkedQ, func(i, j int) bool { return ctl.parkedQ[i].gid < ctl.parkedQ[j].gid })
-		// decide once per parked autocommit exec/query whether it "waits for a lock" held by another
-		// goroutine's open transaction; such a call is not released while that transaction is open.
-		// Calls of goroutines that are themselves in a transaction are never held, so on a correct
-		// cache every transaction can finish and every held call is eventually released.
-		var eligible []int
-		for i, q := range ctl.parkedQ {
-			if !q.decided {
-				q.decided = true
-				if (q.kind == "exec" || q.kind == "query") && atomic.LoadInt32(&ctl.inTx[q.gid]) == 0 && ctl.otherTxOpen(q.gid) {
-					q.held = rapid.IntRange(0, 2).Draw(rt, "lockwait") == 0
-					if q.held {
-						holds++
-					}
+		// Liveness of the cache itself: while driver calls are parked, every other goroutine must still be
+		// able to reach its own next driver call (or wait for a preparation in flight). A goroutine that is
+		// blocked on the cache's mutex for as long as the parked calls stay parked means the mutex is held
+		// across a driver call / a statement close - with a database that makes the parked call wait for a
+		// lock this is a deadlock.
+		if int(atomic.LoadInt32(&ctl.live)) > n {
+			if who := blockedOnCacheMutex(); who != "" {
+				before := atomic.LoadInt64(&ctl.progress)
+				ctl.mu.Unlock()
+				time.Sleep(40 * time.Millisecond)
+				again := blockedOnCacheMutex()
+				ctl.mu.Lock()
+				if again != "" && firstLine(again) == firstLine(who) && atomic.LoadInt64(&ctl.progress) == before && len(ctl.parkedQ) == n {
+					ctl.mu.Unlock()
+					msg := "C14 violated: a goroutine stays blocked on the statement cache's mutex while driver calls are parked and nothing else runs: the cache lock is held across a driver call or a statement close (a deadlock as soon as the parked call waits for a lock)\ncase: " + desc.String() + "\nblocked goroutine:\n" + again
+					fmt.Println("VERIF-FAILURE-BEGIN\n" + msg + "\nVERIF-FAILURE-END")
+					rt.Fatalf("%s", msg)
+				}
+				sort.Slice(ctl.parkedQ, func(i, j int) bool { return ctl.parkedQ[i].gid < ctl.parkedQ[j].gid })
+				n = len(ctl.parkedQ)
+				if n == 0 {
+					ctl.mu.Unlock()
+					continue
 				}
 			}
-			if q.held && ctl.otherTxOpen(q.gid) {
-				continue
-			}
-			eligible = append(eligible, i)
 		}
-		if len(eligible) == 0 {
-			ctl.mu.Unlock()
-			if time.Since(lastChange) > 10*time.Second {
-				buf := make([]byte, 1<<16)
-				k := runtime.Stack(buf, true)
-				fmt.Println("VERIF-FAILURE-BEGIN\nC14 violated: deadlock - calls waiting for a lock held by an open transaction, and that transaction cannot finish; case: " + desc.String() + "\nVERIF-FAILURE-END")
-				rt.Fatalf("C14 violated: deadlock - %d goroutine(s) unfinished: the only parked driver calls wait for a lock held by another goroutine's open transaction, and that transaction makes no progress for 10s\ncase: %s\n%s",
-					atomic.LoadInt32(&ctl.live), desc.String(), buf[:k])
-			}
-			time.Sleep(200 * time.Microsecond)
-			continue
-		}
-		idx := eligible[0]
-		if len(eligible) > 1 {
-			idx = eligible[rapid.IntRange(0, len(eligible)-1).Draw(rt, "release")]
+		idx := 0
+		if n > 1 {
+			idx = rapid.IntRange(0, n-1).Draw(rt, "release")
 		}
 		p := ctl.parkedQ[idx]
 		ctl.parkedQ = append(ctl.parkedQ[:idx], ctl.parkedQ[idx+1:]...)
@@ -877,9 +871,7 @@ func runCase(rt *rapid.T) {
 	if faultsDrawn > 0 {
 		cl = append(cl, "has:fault")
 	}
-	if holds > 0 {
-		cl = append(cl, "has:lock-wait")
-	}
+
 	if sameTextWindow {
 		cl = append(cl, "window:same-text-overlap")
 	}
@@ -895,6 +887,44 @@ func runCase(rt *rapid.T) {
 		cl = append(cl, "window:reset-close-inside-prepare")
 	}
 	evid.Case(desc.String()+fmt.Sprintf("| %d releases", steps), sameTextWindow || cacheInWindow || faultsDrawn > 0, nil, cl...)
+}
+
+// blockedOnCacheMutex returns the stack of a program goroutine that is blocked acquiring the
+// PreparedStmtDB mutex while no program goroutine is running or runnable ("" if there is none).
+func blockedOnCacheMutex() string {
+	buf := make([]byte, 1<<18)
+	k := runtime.Stack(buf, true)
+	var found string
+	for _, g := range strings.Split(string(buf[:k]), "\n\n") {
+		if !strings.Contains(g, "props/c14.runCase.func2(") {
+			continue // not a program goroutine
+		}
+		head := firstLine(g)
+		if strings.Contains(head, "[running") || strings.Contains(head, "[runnable") {
+			return "" // somebody still makes progress: not quiescent
+		}
+		if !strings.Contains(head, "sync.RWMutex") && !strings.Contains(head, "sync.Mutex") && !strings.Contains(head, "semacquire") {
+			continue
+		}
+		lines := strings.Split(g, "\n")
+		for i, l := range lines {
+			if strings.HasPrefix(l, "sync.(*RWMutex).") {
+				// the caller of the mutex method is two lines further down (function line, file line)
+				if i+2 < len(lines) && (strings.HasPrefix(lines[i+2], "gorm.io/gorm.(*PreparedStmtDB).") || strings.HasPrefix(lines[i+2], "gorm.io/gorm.(*PreparedStmtTX).")) {
+					found = g
+				}
+				break
+			}
+		}
+	}
+	return found
+}
+
+func firstLine(s string) string {
+	if i := strings.IndexByte(s, '\n'); i >= 0 {
+		return s[:i]
+	}
+	return s
 }
 
 func TestC14(t *testing.T) {
